@@ -280,6 +280,24 @@ Definition det3 (A : affR) : R :=
   radd (radd (rmul cx (vx c)) (rmul cy (vy c))) (rmul cz (vz c)).
 Definition is_left (A : affR) : bool := ltb (det3 A) rO.
 
+(* ------------------------------------------------------------ coordinate -> index
+   inverse_affine (np.linalg.inv), map_reference_to_indices and VolumeToVolumeTransformer
+   answer "which voxel lies at this physical coordinate".  np.linalg.inv is modelled by
+   Cramer's rule, inverse = adjugate / determinant; the adjugate part needs no division and
+   lives over the ring: [lookup_num A p] = det A * (index of the point p). *)
+Definition vsubR (a b : vec R) : vec R := V (rsub (vx a) (vx b)) (rsub (vy a) (vy b)) (rsub (vz a) (vz b)).
+Definition crossR (a b : vec R) : vec R :=
+  V (rsub (rmul (vy a) (vz b)) (rmul (vz a) (vy b)))
+    (rsub (rmul (vz a) (vx b)) (rmul (vx a) (vz b)))
+    (rsub (rmul (vx a) (vy b)) (rmul (vy a) (vx b))).
+Definition dotR3 (a b : vec R) : R :=
+  radd (radd (rmul (vx a) (vx b)) (rmul (vy a) (vy b))) (rmul (vz a) (vz b)).
+(* adjugate of the 3x3 part applied to a direction d *)
+Definition lookup_lin_num (A : affR) (d : vec R) : vec R :=
+  V (dotR3 (crossR (c1 A) (c2 A)) d) (dotR3 (crossR (c2 A) (c0 A)) d) (dotR3 (crossR (c0 A) (c1 A)) d).
+Definition lookup_num (A : affR) (p : vec R) : vec R := lookup_lin_num A (vsubR p (tr A)).
+Definition norm2 (v : vec R) : R := dotR3 v v.
+
 (* ------------------------------------------------------------ methods of _VolumeBase,
    generic in the object type T and its three abstract methods *)
 (* random_flip_spatial / random_permute_spatial_axes / random_spatial_crop: the values drawn
@@ -861,6 +879,121 @@ Definition run_closest (A : aff Qc) : val :=
   vz_list (closest Qc (Q2Qc 0%Q) Qcopp qc_ltb A).
 Definition run_is_left (A : aff Qc) : val :=
   VB (is_left Qc (Q2Qc 0%Q) Qcplus Qcmult Qcminus qc_ltb A).
+
+(* ------------------------------------------------------------ coordinate -> index queries
+   (executable instance; Qc is a field).  The objects of the code are immutable as far as the
+   property is concerned: a query is a pure function of (affine, shape, array) and leaves the
+   object as it is, so an [EQuery] event never changes the state of the history. *)
+Definition q_det (A : aff Qc) : Qc := det3 Qc Qcplus Qcmult Qcminus A.
+Definition q_scale (k : Qc) (v : vec Qc) : vec Qc := V (Qcmult (vx v) k) (Qcmult (vy v) k) (Qcmult (vz v) k).
+(* linear part of the inverse applied to a direction / the inverse applied to a point *)
+Definition q_lookup_lin (A : aff Qc) (d : vec Qc) : vec Qc :=
+  q_scale (Qcinv (q_det A)) (lookup_lin_num Qc Qcplus Qcmult Qcminus A d).
+Definition q_lookup (A : aff Qc) (p : vec Qc) : vec Qc :=
+  q_scale (Qcinv (q_det A)) (lookup_num Qc Qcplus Qcmult Qcminus A p).
+Definition q_zero : Qc := Q2Qc 0%Q.
+Definition q_one : Qc := Q2Qc 1%Q.
+(* inverse_affine as a matrix: three columns of the inverse of the 3x3 part + image of the origin *)
+Definition q_inv_aff (A : aff Qc) : aff Qc :=
+  Aff (q_lookup_lin A (V q_one q_zero q_zero)) (q_lookup_lin A (V q_zero q_one q_zero))
+      (q_lookup_lin A (V q_zero q_zero q_one)) (q_lookup A (V q_zero q_zero q_zero)).
+(* VolumeToVolumeTransformer(from, to).affine = to.inverse_affine @ from.affine *)
+Definition q_xform (Afrom Ato : aff Qc) : aff Qc :=
+  Aff (q_lookup_lin Ato (c0 Afrom)) (q_lookup_lin Ato (c1 Afrom)) (q_lookup_lin Ato (c2 Afrom))
+      (q_lookup Ato (tr Afrom)).
+Definition q_phys (A : aff Qc) (j : idx) : vec Qc :=
+  let '(j0, j1, j2) := j in phys Qc Qcplus Qcmult A (qc_inj j0) (qc_inj j1) (qc_inj j2).
+
+(* the point is on the voxel grid: Some integer index *)
+Definition qc_int (x : Qc) : option Z :=
+  if Pos.eqb (Qden (this x)) 1 then Some (Qnum (this x)) else None.
+Definition vec_int (v : vec Qc) : option idx :=
+  match qc_int (vx v), qc_int (vy v), qc_int (vz v) with
+  | Some a, Some b, Some c => Some (a, b, c)
+  | _, _, _ => None
+  end.
+Definition in_box (s : idx) (j : idx) : bool :=
+  let '(n0, n1, n2) := s in let '(j0, j1, j2) := j in
+  (0 <=? j0) && (j0 <? n0) && (0 <=? j1) && (j1 <? n1) && (0 <=? j2) && (j2 <? n2).
+
+Inductive qname :=
+| QInv                       (* inverse_affine *)
+| QGeom                      (* get_geometry().inverse_affine / copy().inverse_affine *)
+| QRt (pts : list idx)       (* map_reference_to_indices(map_indices_to_reference(pts)) *)
+| QFind (pts : list idx)     (* ... with round_output=True, check_bounds=True; pts inside the box *)
+| QXfTo                      (* VolumeToVolumeTransformer(initial, current).affine *)
+| QXfFrom                    (* VolumeToVolumeTransformer(current, initial).affine *)
+| QProbe (pts : list idx)    (* the voxel (index, values of all channels) found at the physical
+                                coordinate that voxel [pt] of the INITIAL volume had *)
+| QSp2                       (* spacing ** 2 *)
+| QDirSp                     (* direction * spacing  (= the three columns) *)
+| QPos                       (* position *)
+| QCenter                    (* center_position *)
+| QHand.                     (* handedness *)
+
+Definition half_of (n : Z) : Qc := Q2Qc ((n - 1) # 2)%Q.
+
+(* [vals j] = what the object stores at voxel j (all channels; nothing for a geometry) *)
+Definition observe (A0 A : aff Qc) (shape : idx) (vals : idx -> list val) (n : qname) : val :=
+  let singular := Qc_eq_bool (q_det A) q_zero in
+  let singular0 := Qc_eq_bool (q_det A0) q_zero in
+  match n with
+  | QInv | QGeom => if singular then VErr "LinAlgError" else vaff (q_inv_aff A)
+  | QRt pts => if singular then VErr "LinAlgError"
+               else VL (flat_map (fun j => vvec (q_lookup A (q_phys A j))) pts)
+  | QFind pts =>
+      if singular then VErr "LinAlgError"
+      else
+        let found := map (fun j => vec_int (q_lookup A (q_phys A j))) pts in
+        if forallb (fun o => match o with Some i => in_box shape i | None => false end) found
+        then VL (flat_map (fun o => match o with Some (a, b, c) => [VZ a; VZ b; VZ c] | None => [] end) found)
+        else VErr "RuntimeError"
+  | QXfTo => if singular then VErr "LinAlgError" else vaff (q_xform A0 A)
+  | QXfFrom => if singular0 then VErr "LinAlgError" else vaff (q_xform A A0)
+  | QProbe pts =>
+      if singular then VErr "LinAlgError"
+      else VL (map (fun p => match vec_int (q_lookup A (q_phys A0 p)) with
+                             | Some i => if in_box shape i
+                                         then VL [vshape i; VL (vals i)] else VNone
+                             | None => VNone
+                             end) pts)
+  | QSp2 => VL [vqc (norm2 Qc Qcplus Qcmult (c0 A)); vqc (norm2 Qc Qcplus Qcmult (c1 A));
+                vqc (norm2 Qc Qcplus Qcmult (c2 A))]
+  | QDirSp => VL (vvec (c0 A) ++ vvec (c1 A) ++ vvec (c2 A))
+  | QPos => VL (vvec (tr A))
+  | QCenter => let '(n0, n1, n2) := shape in
+               VL (vvec (phys Qc Qcplus Qcmult A (half_of n0) (half_of n1) (half_of n2)))
+  | QHand => VB (is_left Qc (Q2Qc 0%Q) Qcplus Qcmult Qcminus qc_ltb A)
+  end.
+
+Definition vol_vals (v : qvol) (j : idx) : list val :=
+  map (fun c => VQ (v_arr _ _ v j c)) (all_cidx (cshape _ _ v)).
+
+Inductive event := EOp (o : qop) | EQuery (l : list qname).
+
+(* lock-step history with interleaved queries.  A query event reports the answers of the
+   volume and of its geometry and leaves both as they are. *)
+Fixpoint run_events_from (A0 : aff Qc) (v : qvol) (g : geom Qc) (evs : list event) : list val :=
+  match evs with
+  | [] => []
+  | EOp o :: evs' =>
+      let rv := q_step v o in
+      let rg := q_gstep g o in
+      let v' := match rv with Ok x => x | Err _ => v end in
+      let g' := match rv, rg with Ok _, Some (Ok x) => x | _, _ => g end in
+      VL [vres out_vol rv; match rg with Some r => vres out_geom r | None => VNone end]
+      :: run_events_from A0 v' g' evs'
+  | EQuery l :: evs' =>
+      VL [VL (map (observe A0 (v_aff _ _ v) (v_shape _ _ v) (vol_vals v)) l);
+          VL (map (observe A0 (g_aff _ g) (g_shape _ g) (fun _ => [])) l)]
+      :: run_events_from A0 v g evs'
+  end.
+Definition run_hist_q (v : qvol) (evs : list event) : val :=
+  VL (run_events_from (v_aff _ _ v) v (geom_of _ _ v) evs).
+
+Definition ops_of (evs : list event) : list qop :=
+  flat_map (fun e => match e with EOp o => [o] | EQuery _ => [] end) evs.
+Definition is_op (e : event) : bool := match e with EOp _ => true | EQuery _ => false end.
 
 (* implicit value type for the operation constructors (used by generated case files) *)
 Arguments OGet {Vx}. Arguments OFlip {Vx}. Arguments OPermute {Vx}. Arguments OSwap {Vx}.
